@@ -24,7 +24,7 @@ from .cdef import Contract, LoopSpec  # noqa: E402,F401
 
 SPEC_PRIM_NAMES = {'be', 'le', 'sl', 'cat', 'low', 'shr', 'pow2', 'tb', 'tl', 'bat', 'rpow', 'rpow2', 'bfind',
                    'band', 'bor', 'at', 'toreal', 'is_int_valued', 'decode', 'decodable', 'has_key', 'pv',
-                   'kind_of', 'raw_of', 'val_of', 'keys_of', 'append', 'cls_is', 'warned', 'i2r'}
+                   'kind_of', 'raw_of', 'val_of', 'keys_of', 'append', 'cls_is', 'warned', 'i2r', 'src_T', 'src_R'}
 
 
 class Registry:
@@ -36,6 +36,8 @@ class Registry:
         self.oracles = {}
         self.uninterp = {}
         self.axiom_schemas = {}
+        self.opaque_defs = {}
+        self._reveal_cache = {}
         self._frames = {}
         self._expr_cache = {}
         self.ext_models = {}
@@ -101,7 +103,12 @@ class Registry:
             if isinstance(st, ast.FunctionDef):
                 decos = [ast.unparse(d) for d in st.decorator_list]
                 deco_names = [d.split('(')[0] for d in decos]
-                if 'uninterpreted' in deco_names:
+                if 'opaque' in deco_names:
+                    d = st.decorator_list[deco_names.index('opaque')]
+                    sig = [ast.literal_eval(a) for a in d.args]
+                    self.uninterp[st.name] = sig
+                    self.opaque_defs[st.name] = st
+                elif 'uninterpreted' in deco_names:
                     d = st.decorator_list[deco_names.index('uninterpreted')]
                     sig = [ast.literal_eval(a) for a in d.args]
                     self.uninterp[st.name] = sig
@@ -109,6 +116,35 @@ class Registry:
                     self.axiom_schemas[st.name] = st
                 else:
                     self.oracles[st.name] = st
+
+    def reveal_axiom(self, I, name):
+        """The definitional axiom of an @opaque oracle:  forall args. name(args) == body  (pattern: the application)."""
+        if name in self._reveal_cache:
+            return self._reveal_cache[name]
+        st = self.opaque_defs[name]
+        fn, sig = self.uninterp_fn(name)
+        params = [a.arg for a in st.args.args]
+        consts = []
+        svs = []
+        for pn, ty in zip(params, sig[:-1]):
+            c = z3.Const(f"{pn}!rv_{name}", TY.smt_sort(ty))
+            consts.append(c)
+            svs.append(SV(ty, c) if isinstance(ty, str) else None)
+        fr = Frame(module='__spec__')
+        for pn, sv in zip(params, svs):
+            fr.vars[pn] = sv
+        saved = I.spec
+        I.spec = True
+        try:
+            body = None
+            for stmt in st.body:
+                if isinstance(stmt, ast.Return):
+                    body = I.eval(stmt.value, fr)
+        finally:
+            I.spec = saved
+        ax = z3.ForAll(consts, fn(*consts) == body.t, patterns=[fn(*consts)])
+        self._reveal_cache[name] = ax
+        return ax
 
     def uninterp_fn(self, name):
         sig = self.uninterp[name]
@@ -148,6 +184,9 @@ class Registry:
                 return SV('func', BuiltinRef('spec:' + name))
             if name in self.oracles:
                 return SV('func', Closure(self.oracles[name], Frame(module='__spec__'), 'spec.' + name, '__spec__'))
+            if name in self.opaque_defs and I.contract is not None and name in I.contract.reveal:
+                # revealed: the definition is inlined in this proof (everywhere else the function stays opaque)
+                return SV('func', Closure(self.opaque_defs[name], Frame(module='__spec__'), 'spec.' + name, '__spec__'))
             if name in self.uninterp:
                 return SV('func', BuiltinRef('uninterp:' + name))
             if name in self.axiom_schemas:
@@ -493,6 +532,29 @@ def apply_contract(I, con, args, kwargs, node, clo=None, constructing=None, resu
         havoc_location(I, loc, sf)
     saved_old, saved_map = I.in_old, I.old_map
     I.old_map = snap
+    if con.yields or con.final:
+        # a generator under contract: the caller sees the list of everything it yields, constrained by the
+        # generator's exhaustion clauses (`final`); the source is consumed
+        saved_gd = I.ghost_defs
+        gd = dict(con.ghost.get('defs', {}))
+        if vname:
+            gd.update(con.variants[vname].get('ghost_defs', {}))
+        I.ghost_defs = gd
+        try:
+            ety = con.ghost.get('yield_type', 'bytes')
+            lt = TY.list_theory(TY.smt_sort(ety))
+            out = SV('slist', z3.Const(I.path.fresh_name('yielded_' + callee.split('.')[-1]), lt.sort), extra={'elem': ety})
+            saved_y = I.path.yielded
+            I.path.yielded = out
+            sf.vars['out'] = out
+            for name, e in list(ensures.items()) + list(con.final.items()):
+                I.path.assume(eval_spec(I, e, sf, f"{callee} final[{name}]"))
+            add_hints(I, con.hints, sf)
+            I.path.yielded = saved_y
+        finally:
+            I.ghost_defs = saved_gd
+            I.in_old, I.old_map = saved_old, saved_map
+        return SV('gen', out, extra={'contract': con, 'frame': sf})
     try:
         if result_builder is not None:
             res = result_builder(sf.vars.get('value'), None)
